@@ -154,9 +154,9 @@ Example C16_unexec_rmdir_example :
 Proof. split; vm_compute; reflexivity. Qed.
 Example C16_name_ok_example : name_ok [99;97;116;47;112;47;77;97;107;101;102;105;108;101].      (* cat/p/Makefile *)
 Proof. split; [discriminate|vm_compute; reflexivity]. Qed.
-(* the Go code panics (paras[0]) on a Makefile.common of three empty lines; the model says so *)
-Example C16_used_by_panics_example : used_by [120] only_separators = None.
-Proof. exact used_by_panics_example. Qed.
+(* a Makefile.common of three empty lines has no paragraph: left alone *)
+Example C16_used_by_no_paragraph_example : used_by [120] only_separators = Some only_separators.
+Proof. exact used_by_no_paragraph_example. Qed.
 (* a name with a blank is never recognised again: name_ok is needed *)
 Example C16_used_by_name_guard_needed :
   exists ls', used_by [97;32;98] [[35;32;120];[];[120;61;121]] = Some ls' /\ used_by [97;32;98] ls' <> Some ls'.
